@@ -216,7 +216,7 @@ def static_type(p, x):
     if isinstance(x, tuple) or isinstance(x, SKey): return 'tuple'
     if isinstance(x, Closure) or isinstance(x, UserFn): return 'function'
     if isinstance(x, PyType): return 'type'
-    if isinstance(x, Ref): return {'list': 'list', 'slist': 'list', 'deque': 'deque', 'set': 'set', 'dict': 'dict', 'arr': 'list'}.get(p.heap[x.oid][0])
+    if isinstance(x, Ref): return {'list': 'list', 'slist': 'list', 'deque': 'deque', 'set': 'set', 'dict': 'dict', 'arr': 'list', 'chunkfile': 'file', 'bytesio': 'BytesIO'}.get(p.heap[x.oid][0])
     return None
 
 
